@@ -31,6 +31,7 @@ def make_config(prop, rng, tier):
         "p_scribble": rng.choice([0.0, 0.03]),
         "nboxes": rng.randint(1, 6), "maxw": rng.choice([3, 4, 5]),
         "flatten_biclosed": rng.random() < 0.3,
+        **({"max_steps": 160, "nboxes": rng.randint(5, 8)} if tier == "thorough" and rng.random() < 0.3 else {}),
     }
 
 
